@@ -377,12 +377,12 @@ def h1_peer_loss(loss: int, point: int, flavour: int, polls: bool) -> bool:
 
 @harness(
     "C07",
-    dom={"kind": (0, 5), "ti": (0, 1), "flavour": (0, 1), "pc": (0, 2)},
+    dom={"kind": (0, 6), "ti": (0, 1), "flavour": (0, 1), "pc": (0, 2)},
     split={"kind": "each", "flavour": "each"},
     witnesses=[{"kind": 0, "ti": 0, "flavour": 0, "pc": 1}, {"kind": 2, "ti": 1, "flavour": 1, "pc": 2}, {"kind": 3, "ti": 0, "flavour": 0, "pc": 0}],
     budget=120,
     per_path=120,
-    bounds="HTTP/2 connection (ALPN) without streams / with one stream answered after T+1 / WebSocket session held open for 3T / cleartext prior-knowledge HTTP/2 without streams / with a slow request in the same flight as the preface / one stream that the client resets after 0.5 s: T in {2,5}, gap before the traffic in {0, T-1, T+1}; both workers",
+    bounds="HTTP/2 connection (ALPN) without streams / with one stream answered after T+1 / WebSocket session held open for 3T / cleartext prior-knowledge HTTP/2 without streams / with a slow request in the same flight as the preface / one stream that the client resets after 0.5 s / a request the server refuses without opening a stream: T in {2,5}, gap before the traffic in {0, T-1, T+1}; both workers",
     encodes=["hypercorn/protocol/h2.py::H2Protocol.stream_send", "hypercorn/protocol/h2.py::H2Protocol._handle_events", "hypercorn/protocol/ws_stream.py::WSStream.idle",
              "hypercorn/asyncio/tcp_server.py::TCPServer._idle_timeout", "hypercorn/trio/tcp_server.py::TCPServer._idle_timeout"],
     stubs=["tier C runtime", "independent h2 / wsproto clients"],
@@ -393,7 +393,7 @@ def h2_ws_idle(kind: int, ti: int, flavour: int, pc: int) -> bool:
     post: _
     """
     enter()
-    kind = conc(kind, 0, 5)
+    kind = conc(kind, 0, 6)
     T = TS[conc(ti, 0, 1)]
     flavour = "asyncio" if conc(flavour, 0, 1) == 0 else "trio"
     gap = [0.0, T - 1, T + 1][conc(pc, 0, 2)]
@@ -419,7 +419,21 @@ def h2_ws_idle(kind: int, ti: int, flavour: int, pc: int) -> bool:
 
     acts = []
     want = None
-    if kind == 5:
+    if kind == 6:
+        # a request the server refuses by itself (non-ASCII :path -> RST_STREAM): no stream is ever open, the
+        # connection has been idle since it was opened
+        from vf.harness.c04 import _raw_headers, _std
+
+        c = H2Client()
+        acts.append(("feed", c.take()))
+        if gap:
+            acts.append(("sleep", gap))
+        if gap < T:
+            acts.append(("feed", _raw_headers(c, 1, _std(path=b"/caf\xc3\xa9"), True)))
+        want = T
+        acts.append(("sleep", 3 * T + 3))
+        alpn = "h2"
+    elif kind == 5:
         # the client gives up on its only stream half a second after opening it
         c = H2Client()
         acts.append(("feed", c.take()))
@@ -485,7 +499,7 @@ def h2_ws_idle(kind: int, ti: int, flavour: int, pc: int) -> bool:
         why = f"server closed at t={got}, expected t={want} (T={T}, gap={gap})"
     elif not obs["handler_done"]:
         why = "transport closed but the handler is still running"
-    return done(why == "", kind=["h2 no stream", "h2 one slow stream", "websocket", "cleartext prior-knowledge h2, no stream", "cleartext prior-knowledge h2, slow request in the first flight", "h2 stream reset by the client"][kind], T=T, gap=gap, flavour=flavour, why=why)
+    return done(why == "", kind=["h2 no stream", "h2 one slow stream", "websocket", "cleartext prior-knowledge h2, no stream", "cleartext prior-knowledge h2, slow request in the first flight", "h2 stream reset by the client", "h2 request refused by the server (non-ASCII path)"][kind], T=T, gap=gap, flavour=flavour, why=why)
 
 
 # ------------------------------------------------------------------ server-side close with a pipelined request parked
